@@ -11,8 +11,21 @@ _TB2 = ("Trusted: Lean 4.33 kernel (core library only for these two properties),
 claim("C01", "Lean 4 theorems about definitions regenerated from the source (py2lean) + Float correspondence",
       "For every parameter value satisfying the constructor's constraint and every real input, the generated Affine/Loc/Scale/Exp/SoftPlus/Tanh/LeakyTanh "
       "kernels are mutually inverse on their (co)domains and the generated Chain/Invert preserve that for any tree depth; the generated definitions are "
-      "re-derived from /repo on every run and run against the real methods on boundary-directed inputs.",
-      _TB + " Also proved (DESIGN.md §5 C01): Planar with the generated invertibility constraint (leaky-relu slope 0 < s <= 1, every w != 0), TriangularAffine "
+      "re-derived from /repo on every run and run against the real methods on boundary-directed inputs. Whole premade flows: the factory bodies of "
+      "flowjax/flows.py (_add_default_permute, _affine_with_min_scale, every make_layer closure except triangular_spline_flow's, keys = jr.split / "
+      "filter_vmap(make_layer) / Invert(Scan(layers)) if invert else Scan(layers) of all five factories) are regenerated on every run (Gen/Flows.lean) and "
+      "the bijection of coupling_flow, masked_autoregressive_flow, planar_flow (leaky-relu slope 0 < s <= 1) and triangular_spline_flow is proved lawful "
+      "(both round trips on all of R^dim, ..._and_log_det point = plain point) for every number of layers, every dim > 0, every layer parameter value and "
+      "per-layer permutation, both values of invert, conditional or not; block_neural_autoregressive_flow: the analytic direction is injective into R^dim "
+      "with no hypothesis on the inverter, lawful in both orientations with an inverter returning exact preimages; tanh planar flows: forward pass only. "
+      "Real factory-built flows (dims 1-5, 1-4 layers) and hand-stacked BNAF / triangular-spline layer stacks are compared with the generated bodies on every run.",
+      _TB + " Premade flows: Model/FlowsPre.lean (one-line wrappers the generated text calls: Scan = generated Chain of the unstacked layers, "
+      "filter_vmap(make_layer)(keys) = one layer per key, a PRNG key = what it determines; affineFamily/rqsFamily hand models of "
+      "get_ravelled_pytree_constructor) and the hand model Flows.triSplineCore of triangular_spline_flow.make_layer are trusted + compared on real flows "
+      "(tools/props/flows.py); BNAF / triangular-spline factories cannot be constructed in this environment, their layers are built as make_layer does and "
+      "stacked by hand. Not claimed: dim 0 (the real coupling / MAF flows construct, then every method raises ZeroDivisionError); transformer families whose "
+      "range is a proper sub-range of R (the theorems ask for lawfulness on all of R: Affine-shaped and spline transformers); an inverse for tanh planar "
+      "flows (the library's inverse raises NotImplementedError). Also proved (DESIGN.md §5 C01): Planar with the generated invertibility constraint (leaky-relu slope 0 < s <= 1, every w != 0), TriangularAffine "
       "(forward/back substitution, from the constructor's raw arrays), Coupling, MaskedAutoregressive (the sequential inverse loop modelled literally) and "
       "BlockAutoregressiveNetwork (injective, onto with LeakyTanh, coordinate-wise root finding recovers the preimage) on hand models Model/Triangular.lean and "
       "Model/NetInverse.lean tied by correspondence; Scan/Vmap through C08's theorems and the real Scan-vs-Chain-of-unstacked-layers correspondence.", "DESIGN.md §5 C01")
@@ -28,8 +41,18 @@ claim("C03", "Lean 4 theorems about definitions regenerated from the source (py2
       "The generated AbstractTransformed methods satisfy the change-of-variables identities for every base/bijection record: log_prob = base log-density at the "
       "inverse image + inverse log-det; sample = bijection of the base sample; the log-prob returned with a sample equals log_prob there whenever the bijection is "
       "lawful with antisymmetric log-dets (any nesting depth); merge_transforms and merge_chains preserve all methods for any nesting depth. Nested real "
-      "Transformed objects, their merged forms and the premade flows' orientation are compared with the model on every run.",
-      _TB + " Base distributions are abstract records; PRNG is JAX's. BNAF/triangular-spline factories cannot be constructed in this environment.", "DESIGN.md §5 C03")
+      "Transformed objects, their merged forms and the premade flows' orientation are compared with the model on every run. Premade flows: for the "
+      "Transformed(base_dist, Invert(Scan(layers)) if invert else Scan(layers)) that each factory of flowjax/flows.py returns (factory bodies regenerated on every "
+      "run, Gen/Flows.lean) the three identities and consistency of sample_and_log_prob are proved for coupling, masked-autoregressive, planar (leaky-relu slope "
+      "0 < s <= 1), triangular-spline and (under an exact inverter) block-neural-autoregressive flows, for every number of layers, dim > 0, layer parameter values, "
+      "permutation, invert flag, base distribution and condition; the whole flow's inverse log-det is minus the forward log-det at the preimage; invert=True makes "
+      "log_prob one forward pass through the layers. log_prob / sample / sample_and_log_prob of real factory-built coupling / MAF / planar flows are compared with "
+      "the generated bodies on every run.",
+      _TB + " Base distributions are abstract records; PRNG is JAX's. BNAF/triangular-spline factories cannot be constructed in this environment (their layer stacks "
+      "are built by hand as make_layer does; quick tier: compared under C01, thorough tier also here); triangular_spline_flow.make_layer is the hand model "
+      "Flows.triSplineCore; Model/FlowsPre.lean wrappers trusted + compared. Not claimed: dim 0 (real coupling / MAF flows raise ZeroDivisionError in every method); "
+      "transformers whose range is a proper sub-range of R; tanh planar flows (forward-only: sample of the default orientation raises NotImplementedError); the "
+      "bisection inverter's tolerance inside BNAF flows (C10).", "DESIGN.md §5 C03")
 
 claim("C12", "Lean 4 theorems (core Lean, no Mathlib) about a hand model of pytrees with wrapper nodes + differential correspondence on real pytrees and real training runs",
       "For every pytree (any size, nesting depth, container width, any per-class unwrap bodies returning wrapper-free values): unwrap leaves no wrapper, is idempotent, applies "
@@ -54,8 +77,13 @@ claim("C08", "Lean 4 theorems about generated Chain/Invert, the generated Concat
       "Concatenate/Stack/Partial/Reshape/EmbedCondition are regenerated from concatenate.py / utils.py on every run (Gen/ArrCombinators.lean) and proved equal to the hand model for every rank, "
       "axis (negative included), number of children and child behaviour, so the theorems hold of what the code says now; the generated constructors are proved to declare the C13 shape / cond_shape. "
       "Generated definitions and hand model are both run against the real "
-      "combinators on random trees: ranks 0-3, every valid axis incl. negative, every index kind of Partial, conditional and unconditional children mixed, Scan, Vmap; the primitive specs against jnp directly.",
-      _TB + " Model/Arr.lean is a hand model tied by proof to the generated definitions and by correspondence to the code; Model/ArrJnp.lean (specs of jnp.array_split/split/concatenate/stack/squeeze/reshape/indexing) and the typing sheet targets_arrcomb.py are trusted + compared; Partial.idxs enters resolved to flat positions; lax.scan / filter_vmap themselves are JAX's; declared-shape algebra for negative axes is proved in C13's ArgCheck model.", "DESIGN.md §5 C08")
+      "combinators on random trees: ranks 0-3, every valid axis incl. negative, every index kind of Partial, conditional and unconditional children mixed, Scan, Vmap; the primitive specs against jnp directly. "
+      "Premade flows: the Scan inside every factory of flowjax/flows.py (factory bodies regenerated on every run, Gen/Flows.lean) is proved to be the generated Chain of its unstacked, "
+      "heterogeneous layers [make_layer(key 0), ..., make_layer(key (n-1))] for every n (wrapped in the generated Invert iff invert), with the four methods of the flat chain "
+      "[b0, p0, b1, p1, ...], and _add_default_permute adds nothing / Flip / Permute for dim 1 / 2 / otherwise; the real Scan / Invert(Scan) of real factory-built coupling / MAF / planar "
+      "flows is compared with that chain on every run (both log-det methods).",
+      _TB + " Model/Arr.lean is a hand model tied by proof to the generated definitions and by correspondence to the code; Model/ArrJnp.lean (specs of jnp.array_split/split/concatenate/stack/squeeze/reshape/indexing) and the typing sheet targets_arrcomb.py are trusted + compared; Partial.idxs enters resolved to flat positions; lax.scan / filter_vmap themselves are JAX's; declared-shape algebra for negative axes is proved in C13's ArgCheck model. Premade flows: Model/FlowsPre.lean (Scan = Chain of the unstacked layers, filter_vmap(make_layer) = one layer per key) is trusted + compared "
+      "on real flows through fj.unstack_scan; hand-stacked BNAF Scans are compared in the thorough tier (quick tier: under C01); dim 0 flows (ZeroDivisionError in the real code) are outside the statements.", "DESIGN.md §5 C08")
 
 claim("C09", "Lean 4 theorems about a hand-written executable model of the masks / masked networks + exhaustive structural and Float/Jacobian correspondence with the real objects",
       "For every size (dim, cond_dim, width, depth, parameters per dimension, block shape, number of blocks, offset) and ALL raw weight/bias/scale values and activations: "
